@@ -39,6 +39,8 @@ def gamma_callable_exact(tape, tag, arg):
         return lambda c, k, mu, s2, team, rank: s2 / (c * c)
     if tag == "Z":
         return lambda c, k, mu, s2, team, rank: inp(tape, 0.0)
+    if tag == "T":
+        return lambda c, k, mu, s2, team, rank: symtrace.MathShim.sqrt(sum(p.sigma * p.sigma for p in team)) / c
     raise ValueError(tag)
 
 
